@@ -226,12 +226,16 @@ _G_TRSTATS = dgen(GKinds='{"ok", "http", "refuse", "reset_pre", "reset_after"}',
                   Routes='{"anthropic", "anthropic_stream"}')
 _G_TRSTATS_NATIVE = dgen(GKinds='{"ok", "http", "refuse", "reset_after"}', Balancers='{"round-robin"}',
                          Routes='{"anthropic", "anthropic_stream"}', EpTypes='{"vllm"}')
+# every candidate skipped because its engine breaker is open while the endpoints are still listed healthy:
+# still a failure the client must see as one (11 requests under round-robin open both breakers)
+_G_ALLOPEN = dict(dgen(GKinds='{"garbage", "close_pre"}', Balancers='{"round-robin"}', Pattern=4,
+                       Routes='{"proxy", "anthropic", "anthropic_stream"}'), always=True)
 PROPS["C05"] = {
     "rule": _DISPATCH_RULE + " For C05 the grid is failure cause (no healthy endpoint, unknown model, all refuse, all "
             "reset, backend 5xx) x route family (proxy, provider, Anthropic buffered, Anthropic streaming) x engine.",
     "exhaustive": False,
     "assumptions": ["'promptly' = the client has its answer within 3 s while every configured timeout is >= 10 s"],
-    "parts": [dpart([_G_FAIL, _G_FAIL_NATIVE], [_G_FAIL, _G_FAIL_NATIVE, _G_SINGLE2])],
+    "parts": [dpart([_G_FAIL, _G_FAIL_NATIVE, _G_ALLOPEN], [_G_FAIL, _G_FAIL_NATIVE, _G_SINGLE2, _G_ALLOPEN])],
 }
 PROPS["C05"]["parts"][0]["quick"]["sample"] = 900
 
